@@ -203,6 +203,6 @@ theorem storeRetain (s : Store P) (g : Item → P → Bool) (fuel : Nat) (h : fu
   obtain ⟨n, rfl⟩ : ∃ n, fuel = n + 2 := ⟨fuel - 2, by omega⟩
   src_enter [prog, SrcGen.storeRetain]
   have hc := fun (s : Store P) f => storeRetainMut s f (n + 1) (by omega)
-  simp only [run] at hc
+  simp only [Src.run] at hc
   src_eval [storeRetain_body, hc]
 end PQ.SrcEquiv
